@@ -414,3 +414,38 @@ Theorem inferred_names_refuted :
   Infer.has_cand (Infer.ddw Infer.w_so) (IdArg Infer.w_so) (complete_model [] Infer.c2 [[112]; Infer.opti; Infer.w_sub; [45; 45]] 3) = true /\
   Infer.kind_of (parse_top Infer.c2 [[112]; Infer.opti; Infer.w_sub; Infer.ddw Infer.w_so]) = Some EUnknownArgument.
 Proof. vm_compute. repeat split; reflexivity. Qed.
+
+(** * Finding C18-flag-subcommands (an observation since round 1; by the letter of the property a violation; not repaired)
+    `p(--pf) -> sync(long_flag sync, short_flag S; --so)`: the parser accepts `p --sync` and `p -S` (dispatch to `sync`); the
+    engine skips the unknown flag, stays at `p` and offers `--pf`; `p --sync --pf`, `p -S --pf` are UnknownArgument.
+    Same on the real crate (corpus/C18/accept.flag-subcommands.cases). *)
+Module FlagSub.
+Definition w_pf : bytes := [112; 102].
+Definition w_sync : bytes := [115; 121; 110; 99].
+Definition w_so : bytes := [115; 111].
+Definition ddw (s : bytes) : bytes := 45 :: 45 :: s.
+Definition c0 : cmd :=
+  (cmd_new [112])
+    <| c_args := [ (arg_new w_pf) <| a_long := Some w_pf |> <| a_action := Some ASetTrue |> ] |>
+    <| c_subs := [ (cmd_new w_sync) <| c_long_flag := Some w_sync |> <| c_short_flag := Some 83 |>
+                     <| c_args := [ (arg_new w_so) <| a_long := Some w_so |> <| a_action := Some ASetTrue |> ] |> ] |>.
+Definition has_cand (v : bytes) (i : cid) (r : cres) : bool :=
+  match r with COk l => existsb (fun cd => beq (cd_value cd) v && opt_cid_eqb (cd_id cd) (Some i)) l | _ => false end.
+Definition level_at (args : list bytes) (i : N) : option bytes :=
+  match build_full (build_fuel c0) c0 with
+  | BOk b => match start_walk b args i with WAt _ cur _ ValueDone false _ => Some (c_name cur) | _ => None end
+  | _ => None end.
+Definition kind_of (o : outcome) : option ekind := match o with OErr e => Some (e_kind e) | _ => None end.
+Definition chain_of (o : outcome) : option (list bytes) := match o with OOk m => Some (Globals.chain m) | _ => None end.
+End FlagSub.
+
+Theorem flag_subcommands_refuted :
+  FlagSub.chain_of (parse_top FlagSub.c0 [[112]; FlagSub.ddw FlagSub.w_sync]) = Some [FlagSub.w_sync] /\
+  FlagSub.chain_of (parse_top FlagSub.c0 [[112]; [45; 83]]) = Some [FlagSub.w_sync] /\
+  FlagSub.level_at [[112]; FlagSub.ddw FlagSub.w_sync; [45; 45]] 2 = Some [112] /\
+  FlagSub.level_at [[112]; [45; 83]; [45; 45]] 2 = Some [112] /\
+  FlagSub.has_cand (FlagSub.ddw FlagSub.w_pf) (IdArg FlagSub.w_pf) (complete_model [] FlagSub.c0 [[112]; FlagSub.ddw FlagSub.w_sync; [45; 45]] 2) = true /\
+  FlagSub.has_cand (FlagSub.ddw FlagSub.w_pf) (IdArg FlagSub.w_pf) (complete_model [] FlagSub.c0 [[112]; [45; 83]; [45; 45]] 2) = true /\
+  FlagSub.kind_of (parse_top FlagSub.c0 [[112]; FlagSub.ddw FlagSub.w_sync; FlagSub.ddw FlagSub.w_pf]) = Some EUnknownArgument /\
+  FlagSub.kind_of (parse_top FlagSub.c0 [[112]; [45; 83]; FlagSub.ddw FlagSub.w_pf]) = Some EUnknownArgument.
+Proof. vm_compute. repeat split; reflexivity. Qed.
